@@ -9,7 +9,7 @@ META = {
              'list of the specification; signature = (record length, #objects, sorted payload length classes, '
              'payload kinds); non-trivial when a payload is empty, shorter than 8 bytes or spans several segments'),
     'required_obs': {'quick': ['c16-empty', 'c16-short', 'c16-ends-01', 'c16-multi-segment', 'c16-multi-object',
-                               'c16-str', 'c16-bytearray', 'c16-payload', 'c16-same-named-objects', 'c16-identity-change-then-rewrite', 'c16-buffer-reused-by-caller']},
+                               'c16-str', 'c16-bytearray', 'c16-payload', 'c16-same-named-objects', 'c16-identity-change-then-rewrite', 'c16-buffer-reused-by-caller', 'c16-via-data-attribute']},
     'exhaustive_windows': {
         'quick': ['payload lengths 0..16 x name lengths 1..4 (single payload)'],
         'thorough': ['payload lengths 0..40 x name lengths 1..10 (single payload)',
@@ -112,6 +112,10 @@ def run_case(case):
             if as_ == 'bytearray':
                 obs['c16-bytearray'] = obs.get('c16-bytearray', 0) + 1
             sp['ops'].append(gen.nf_data_op(first + r.randrange(nobj), pb, as_=as_))
+            if r.random() < 0.3:
+                # the payload put into the record's `data` attribute after the record has been created (documented route)
+                sp['ops'][-1]['via'] = 'data-attribute'
+                obs['c16-via-data-attribute'] = obs.get('c16-via-data-attribute', 0) + 1
             if as_ == 'bytearray' and r.random() < 0.5:
                 # the caller re-uses its buffer after handing it over: what was supplied is what counts
                 sp['ops'].append({'op': 'scribble', 'target': len(sp['ops']) - 1})
